@@ -55,22 +55,25 @@ theorem track_convert_f (nS nM : Nat) (ta : List Node) (ha : linL ta = true) (ka
   simp [convertTrack, encAll_append, e1, encAll, encEv_finish, Except.map]
 
 /-- the two parts of a track, encoded by the structured encoder from nothing, decoded at offset
-`pre.length` of a chunk: the encoder states shifted by `pre` -/
-theorem two_parts_at (nS nM : Nat) (ta tb : List Node) (ha : linL ta = true) (hb : linL tb = true) :
+`pre.length` of a chunk: the encoder states shifted by `pre`.  The first part is entered in mode `M`
+and left in mode `afterL M ta`, in which the second part is entered. -/
+theorem two_parts_at (M : Mode) (nS nM : Nat) (ta tb : List Node) (ha : linL ta = true) (hb : linL tb = true)
+    (ma : mokL M true ta = true) (mb : mokL (afterL M ta) true tb = true) :
     ∃ eA eB, encL nS nM ta {} = .ok eA ∧ encL nS nM tb (afterSegno eA) = .ok eB ∧
       (afterSegno eA).out <+: eB.out ∧ eB.segnoPos = (afterSegno eA).out.length % 65536 ∧
-      ∀ (pre seq : List Nat) (base mj : Nat), callsOkL seq base mj ta → callsOkL seq base mj tb →
-        pre ++ eB.out <+: seq →
+      ∀ (pre seq : List Nat) (base mj : Nat), M.Sound seq base mj → callsOkL M seq base mj ta →
+        callsOkL (afterL M ta) seq base mj tb → pre ++ eB.out <+: seq →
         ∃ e0S e0B : Enc, e0S.out = pre ++ (afterSegno eA).out ∧ e0B.out = pre ++ eB.out ∧
-          (∀ s : St, s.pc = pre.length → s.drum = false →
-            ∃ s1, Reach seq base mj s s1 ∧ Frame s s1 ∧ Good e0S s1 ((expL nS nM ta).reverse ++ s.out)) ∧
-          (∀ (s : St) (O : List Tk), Good e0S s O →
-            ∃ s1, Reach seq base mj s s1 ∧ Frame s s1 ∧ Good e0B s1 ((expL nS nM tb).reverse ++ O)) ∧
-          (∀ s : St, s.pc = e0S.out.length → s.drum = false → Good e0S s s.out) := by
+          (∀ s : St, s.pc = pre.length → s.drum = M.dm →
+            ∃ s1, Reach seq base mj s s1 ∧ FrameX s s1 ∧ Good (afterL M ta) e0S s1 ((expL M nS nM ta).reverse ++ s.out)) ∧
+          (∀ (s : St) (O : List Tk), Good (afterL M ta) e0S s O →
+            ∃ s1, Reach seq base mj s s1 ∧ FrameX s s1 ∧
+              Good (afterL (afterL M ta) tb) e0B s1 ((expL (afterL M ta) nS nM tb).reverse ++ O)) ∧
+          (∀ s : St, s.pc = e0S.out.length → s.drum = (afterL M ta).dm → Good (afterL M ta) e0S s s.out) := by
   obtain ⟨eA, hA, _, _, _⟩ := encL_total nS nM ta ha {}
   obtain ⟨eB, hB, pB, _, spB⟩ := encL_total nS nM tb hb (afterSegno eA)
   refine ⟨eA, eB, hA, hB, pB, spB, ?_⟩
-  intro pre seq base mj hcA hcB hp
+  intro pre seq base mj hS hcA hcB hp
   obtain ⟨e0, he0⟩ : ∃ e0 : Enc, e0 = { out := pre } := ⟨_, rfl⟩
   have hsim : SimE {} e0 := by
     rw [he0]; exact ⟨rfl, rfl, rfl, fun hn => by simp [noteish, mds_REST, mds_TIE] at hn⟩
@@ -93,42 +96,49 @@ theorem two_parts_at (nS nM : Nat) (ta tb : List Node) (ha : linL ta = true) (hb
   rw [h0B] at h0B'; injection h0B' with h0B'; subst h0B'
   have hpB : e0B.out <+: seq := by rw [hoB]; exact hp
   have hpS : (afterSegno e0A).out <+: seq := p0B.trans hpB
-  obtain ⟨x, hx, semA⟩ := encL_sim nS nM ta ha e0
+  obtain ⟨x, hx, semA⟩ := encL_sim M true nS nM ta ha ma e0
   rw [h0A] at hx; injection hx with hx; subst hx
-  obtain ⟨y, hy, semB⟩ := encL_sim nS nM tb hb (afterSegno e0A)
+  obtain ⟨y, hy, semB⟩ := encL_sim (afterL M ta) true nS nM tb hb mb (afterSegno e0A)
   rw [h0B] at hy; injection hy with hy; subst hy
+  have hS1 := afterL_sound hS ta
   refine ⟨afterSegno e0A, e0B, hoS, hoB, ?_, ?_, ?_⟩
   · intro s hpc hd
-    have g0 : Good e0 s s.out := by
+    have g0 : Good M e0 s s.out := by
       rw [he0]
       exact ⟨fun h => absurd rfl h, fun h => absurd rfl h, hd,
         .inl ⟨by simp [needLenB, noteish, mds_REST, mds_TIE], hpc, rfl⟩⟩
-    obtain ⟨s1, r1, f1, g1⟩ := semA seq base mj s s.out hcA ((disambP_prefix e0A).trans hpS) g0
-    obtain ⟨s2, r2, f2, g2⟩ := segno_good (base := base) (mj := mj) g1 hpS
-    exact ⟨s2, r1.trans r2, f1.trans f2, g2⟩
+    obtain ⟨s1, r1, f1, g1⟩ := semA seq base mj s s.out hS hcA ((disambP_prefix e0A).trans hpS) g0
+    obtain ⟨s2, r2, f2, g2⟩ := segno_good (base := base) (mj := mj) hS1 g1 hpS
+    exact ⟨s2, r1.trans r2, f1.trans f2.x, g2⟩
   · intro s O g
-    exact semB seq base mj s O hcB hpB g
+    exact semB seq base mj s O hS1 hcB hpB g
   · intro s hpc hd
-    exact good_at_segno e0A s hpc hd
+    exact good_at_segno _ e0A s hpc hd
 
 /-- **shape (J) at an offset**: the interpreter, entered at the first byte of the stream with the
 loop-back not yet followed, plays `ta`, then `tb` `mj + 1` times with a loop mark after each of
-the first `mj`, and stops at the jump -/
-theorem track_j_at (nS nM : Nat) (ta tb : List Node) (ha : linL ta = true) (hb : linL tb = true) :
+the first `mj`, and stops at the jump.  The loop section must end in the drum-mode state it
+starts in (`hloop`; otherwise the replay is played in the other state: D25). -/
+theorem track_j_at (M : Mode) (nS nM : Nat) (ta tb : List Node) (ha : linL ta = true) (hb : linL tb = true)
+    (ma : mokL M true ta = true) (mb : mokL (afterL M ta) true tb = true)
+    (hloop : (afterL (afterL M ta) tb).dm = (afterL M ta).dm) :
     ∃ eA eB, encL nS nM ta {} = .ok eA ∧ encL nS nM tb (afterSegno eA) = .ok eB ∧
-      ∀ (pre seq : List Nat) (base mj : Nat) (s : St), callsOkL seq base mj ta → callsOkL seq base mj tb →
+      ∀ (pre seq : List Nat) (base mj : Nat) (s : St), M.Sound seq base mj → callsOkL M seq base mj ta →
+        callsOkL (afterL M ta) seq base mj tb →
         pre ++ trackBytes eB <+: seq → (pre ++ trackBytes eB).length < 65536 →
-        s.pc = pre.length → s.drum = false → s.jumps = 0 →
+        s.pc = pre.length → s.drum = M.dm → s.jumps = 0 →
         ∃ s', Reach seq base mj s s' ∧ step seq base mj s' = .error .finished ∧
-          s'.out = (expL nS nM ta ++ repeatL mj (expL nS nM tb ++ [Tk.loopMark]) ++ expL nS nM tb).reverse ++ s.out := by
-  obtain ⟨eA, eB, hA, hB, pB, spB, h⟩ := two_parts_at nS nM ta tb ha hb
+          s'.out = (expL M nS nM ta ++ repeatL mj (expL (afterL M ta) nS nM tb ++ [Tk.loopMark]) ++
+            expL (afterL M ta) nS nM tb).reverse ++ s.out := by
+  obtain ⟨eA, eB, hA, hB, pB, spB, h⟩ := two_parts_at M nS nM ta tb ha hb ma mb
   refine ⟨eA, eB, hA, hB, ?_⟩
-  intro pre seq base mj s hcA hcB hp hlen hpc hd hj
+  intro pre seq base mj s hS hcA hcB hp hlen hpc hd hj
   have hpB : pre ++ eB.out <+: seq := by
     refine List.IsPrefix.trans ?_ hp
     simp only [trackBytes, ← List.append_assoc]
     exact List.prefix_append _ _
-  obtain ⟨e0S, e0B, hoS, hoB, semA, semB, hS⟩ := h pre seq base mj hcA hcB hpB
+  obtain ⟨e0S, e0B, hoS, hoB, semA, semB, hSt⟩ := h pre seq base mj hS hcA hcB hpB
+  rw [afterL_of_dm hloop] at semB
   obtain ⟨s1, r1, f1, g1⟩ := semA s hpc hd
   have hpJ : e0B.out ++ [mds_JUMP, jumpOff eB / 256, jumpOff eB % 256] <+: seq := by
     rw [hoB]; simpa [trackBytes, List.append_assoc] using hp
@@ -140,62 +150,79 @@ theorem track_j_at (nS nM : Nat) (ta tb : List Node) (ha : linL ta = true) (hb :
     simp only [List.length_append, jumpOff, hsp]
     omega
   have hj1 : s1.jumps = 0 := by rw [f1.jumps, hj]
-  obtain ⟨s', r', hfin, ho'⟩ := jump_passes (base := base) (mj := mj) semB hS hpJ htgt mj s1 _ g1 (by omega) (by omega)
+  obtain ⟨s', r', hfin, ho'⟩ := jump_passes (base := base) (mj := mj) (afterL_sound hS ta) semB hSt hpJ htgt mj s1 _ g1
+    (by omega) (by omega)
   refine ⟨s', r1.trans r', hfin, ?_⟩
   rw [ho']; simp [List.reverse_append, List.append_assoc]
 
 /-- **shape (Z) at an offset**: entered with an empty call stack, plays `ta` then `tb` and stops
 at the terminator -/
-theorem track_z_at (nS nM : Nat) (ta tb : List Node) (ha : linL ta = true) (hb : linL tb = true) :
+theorem track_z_at (M : Mode) (nS nM : Nat) (ta tb : List Node) (ha : linL ta = true) (hb : linL tb = true)
+    (ma : mokL M true ta = true) (mb : mokL (afterL M ta) true tb = true) :
     ∃ eA eB, encL nS nM ta {} = .ok eA ∧ encL nS nM tb (afterSegno eA) = .ok eB ∧
-      ∀ (pre seq : List Nat) (base mj : Nat) (s : St), callsOkL seq base mj ta → callsOkL seq base mj tb →
-        pre ++ (eB.out ++ [mds_FINISH]) <+: seq → s.pc = pre.length → s.drum = false → s.calls = [] →
+      ∀ (pre seq : List Nat) (base mj : Nat) (s : St), M.Sound seq base mj → callsOkL M seq base mj ta →
+        callsOkL (afterL M ta) seq base mj tb →
+        pre ++ (eB.out ++ [mds_FINISH]) <+: seq → s.pc = pre.length → s.drum = M.dm → s.calls = [] →
         ∃ s', Reach seq base mj s s' ∧ step seq base mj s' = .error .finished ∧
-          s'.out = (expL nS nM ta ++ expL nS nM tb).reverse ++ s.out := by
-  obtain ⟨eA, eB, hA, hB, pB, spB, h⟩ := two_parts_at nS nM ta tb ha hb
+          s'.out = (expL M nS nM ta ++ expL (afterL M ta) nS nM tb).reverse ++ s.out := by
+  obtain ⟨eA, eB, hA, hB, pB, spB, h⟩ := two_parts_at M nS nM ta tb ha hb ma mb
   refine ⟨eA, eB, hA, hB, ?_⟩
-  intro pre seq base mj s hcA hcB hp hpc hd hcalls
+  intro pre seq base mj s hS hcA hcB hp hpc hd hcalls
   have hpB : pre ++ eB.out <+: seq := by
     refine List.IsPrefix.trans ?_ hp
     rw [← List.append_assoc]
     exact List.prefix_append _ _
-  obtain ⟨e0S, e0B, hoS, hoB, semA, semB, hS⟩ := h pre seq base mj hcA hcB hpB
+  obtain ⟨e0S, e0B, hoS, hoB, semA, semB, hSt⟩ := h pre seq base mj hS hcA hcB hpB
   obtain ⟨s1, r1, f1, g1⟩ := semA s hpc hd
   obtain ⟨s2, r2, f2, g2⟩ := semB s1 _ g1
   have hpF : e0B.out ++ [mds_FINISH] <+: seq := by rw [hoB]; simpa [List.append_assoc] using hp
-  obtain ⟨s3, r3, hfin, ho⟩ := finish_run (base := base) (mj := mj) g2 (by rw [f2.calls, f1.calls, hcalls]) hpF
+  obtain ⟨s3, r3, hfin, ho⟩ := finish_run (base := base) (mj := mj) (afterL_sound (afterL_sound hS ta) tb) g2
+    (by rw [f2.calls, f1.calls, hcalls]) hpF
   refine ⟨s3, r1.trans (r2.trans r3), hfin, ?_⟩
   rw [ho]; simp [List.reverse_append, List.append_assoc]
 
 /-- **shape (F) at an offset** -/
-theorem track_f_at (nS nM : Nat) (ta : List Node) (ha : linL ta = true) :
+theorem track_f_at (M : Mode) (nS nM : Nat) (ta : List Node) (ha : linL ta = true) (ma : mokL M true ta = true) :
     ∃ eA, encL nS nM ta {} = .ok eA ∧
-      ∀ (pre seq : List Nat) (base mj : Nat) (s : St), callsOkL seq base mj ta →
-        pre ++ (eA.out ++ [mds_FINISH]) <+: seq → s.pc = pre.length → s.drum = false → s.calls = [] →
+      ∀ (pre seq : List Nat) (base mj : Nat) (s : St), M.Sound seq base mj → callsOkL M seq base mj ta →
+        pre ++ (eA.out ++ [mds_FINISH]) <+: seq → s.pc = pre.length → s.drum = M.dm → s.calls = [] →
         ∃ s', Reach seq base mj s s' ∧ step seq base mj s' = .error .finished ∧
-          s'.out = (expL nS nM ta).reverse ++ s.out := by
-  obtain ⟨eA, hA, h⟩ := stream_at nS nM ta ha
+          s'.out = (expL M nS nM ta).reverse ++ s.out := by
+  obtain ⟨eA, hA, h⟩ := stream_top_at M true nS nM ta ha ma
   refine ⟨eA, hA, ?_⟩
-  intro pre seq base mj s hcA hp hpc hd hcalls
-  obtain ⟨s1, r1, f1, _, hfin, ho⟩ := h pre seq base mj s hcA (by simpa [List.append_assoc] using hp) hpc hd
+  intro pre seq base mj s hS hcA hp hpc hd hcalls
+  have hp' : pre ++ eA.out ++ mds_FINISH :: [] <+: seq := by simpa [List.append_assoc] using hp
+  obtain ⟨s1, r1, f1, _, hpc1, ho⟩ := h pre seq base mj s hS hcA (b := mds_FINISH) (by decide) hp' hpc hd
+  have hfin : seq[s1.pc]? = some mds_FINISH := by
+    rw [hpc1]
+    have : (pre ++ eA.out) ++ mds_FINISH :: [] <+: seq := hp'
+    simpa using rd_at this
   exact ⟨s1, r1, step_finish hfin (f1.calls.trans hcalls), ho⟩
 
 /-- **C02, general single track** (on its own, no calls): loops with breaks on both sides of the
 loop point -/
 theorem codec_roundtrip_track (nS nM : Nat) (ta tb : List Node) (ha : linL ta = true) (hb : linL tb = true)
     (ka : brkOkL false ta = true) (kb : brkOkL false tb = true) (na : noCallL ta = true) (nb : noCallL tb = true)
+    (ma : mokL Mode.plain false ta = true) (mb : mokL Mode.plain false tb = true)
     (jarg : Nat) :
     ∃ eA eB, encL nS nM ta {} = .ok eA ∧ encL nS nM tb (afterSegno eA) = .ok eB ∧
       ((trackBytes eB).length < 65536 →
         convertTrack nS nM (flatL ta ++ [⟨mds_SEGNO, 0⟩] ++ flatL tb ++ [⟨mds_JUMP, jarg⟩]) = .ok (trackBytes eB) ∧
         ∀ (base mj : Nat) (ln lr : Option Nat),
           Plays (trackBytes eB) base mj ln lr
-            (expL nS nM ta ++ repeatL mj (expL nS nM tb ++ [Tk.loopMark]) ++ expL nS nM tb)) := by
-  obtain ⟨eA, eB, hA, hB, h⟩ := track_j_at nS nM ta tb ha hb
+            (expL Mode.plain nS nM ta ++ repeatL mj (expL Mode.plain nS nM tb ++ [Tk.loopMark]) ++
+              expL Mode.plain nS nM tb)) := by
+  have e1 : afterL Mode.plain ta = Mode.plain := afterL_of_mok ma
+  have ma' : mokL Mode.plain true ta = true := mokL_top ma
+  have mb' : mokL (afterL Mode.plain ta) true tb = true := by rw [e1]; exact mokL_top mb
+  obtain ⟨eA, eB, hA, hB, h⟩ := track_j_at Mode.plain nS nM ta tb ha hb ma' mb'
+    (by rw [e1, afterL_of_mok mb])
+  rw [e1] at h
   refine ⟨eA, eB, hA, hB, fun hlen => ⟨track_convert nS nM ta tb ha hb ka kb jarg eA eB hA hB hlen, ?_⟩⟩
   intro base mj ln lr
   obtain ⟨s', r', hfin, ho⟩ := h [] (trackBytes eB) base mj { pc := 0, lastNote := ln, lastRest := lr }
-    (noCallL_callsOkL _ _ _ ta na) (noCallL_callsOkL _ _ _ tb nb) (by simp) (by simpa using hlen) rfl rfl rfl
+    (Mode.plain_sound _ _ _)
+    (noCallL_callsOkL _ _ _ _ ta na) (noCallL_callsOkL _ _ _ _ tb nb) (by simp) (by simpa using hlen) rfl rfl rfl
   exact ⟨s', r', hfin, by simpa using ho⟩
 
 /-! ### the walker on the three shapes, at an offset -/
